@@ -1,7 +1,6 @@
 package main
 
 import (
-
 	"golang.org/x/tools/go/ssa"
 )
 
@@ -28,7 +27,7 @@ type thread struct {
 	resume  chan bool // true = continue, false = kill
 	done    bool
 	waitFor func() bool // nil = runnable; else runnable iff waitFor()
-	result  any       // panic payload to re-raise in scheduler
+	result  any         // panic payload to re-raise in scheduler
 }
 
 type access struct {
